@@ -310,6 +310,39 @@ func init() {
 				mk(2, 2, l, "unlock")
 			}
 		}
+		c.Phase("smallest-elements") // transactions made of the smallest elements the format allows: many outputs with empty (9 bytes each) or one-byte scripts, inputs with empty unlocking scripts (41 bytes each)
+		{
+			n := uint64(0)
+			for _, nout := range []int{1, 4, 5, 6, 10, 20, 100, 252, 253, 1000} {
+				for _, nin := range []int{0, 1, 3, 60} {
+					for _, fill := range []int{0, 1, 2} { // all scripts empty; one output carries a few bytes; every script one byte
+						n++
+						if !c.Case(n) {
+							continue
+						}
+						r := c.Rand(n)
+						s := gen.Shape{Version: 1, LockTime: uint32(r.Intn(3))}
+						for k := 0; k < nin; k++ {
+							s.Ins = append(s.Ins, gen.In{TxID: r.Bytes(32), Vout: uint32(k), Seq: gen.U32(r), Unlock: []byte{}, PrevSats: uint64(r.Intn(50)), PrevScript: []byte{}})
+						}
+						for k := 0; k < nout; k++ {
+							o := gen.Out{Sats: uint64(r.Intn(3)), Script: []byte{}}
+							if fill == 2 {
+								o.Script = []byte{0x51}
+							}
+							s.Outs = append(s.Outs, o)
+						}
+						if fill == 1 {
+							s.Outs[r.Intn(nout)].Script = append([]byte{0x6a}, r.Bytes(r.Intn(5))...)
+						}
+						if s.Ambiguous() {
+							s.LockTime = 1
+						}
+						txk(c, &c16Tx{Shape: s, Stage: "smallest-elements"})
+					}
+				}
+			}
+		}
 		c.Phase("hostile-scripts") // scripts a decoder has to survive, as output script and as unlocking script (the node dialect renders scripts as text and classifies them): length claims on the edge of the integer types behind data-carrier and template heads, template instances with one byte changed, inscription look-alikes shorter than a key hash script
 		{
 			n := uint64(0)
